@@ -12,7 +12,7 @@ RULE = (
     "MSM messages of all 49 types and mask shapes (NSat, NCell 0..64): parse_msm must return (meta, sats, cells) whose meta "
     "agrees with the message on identity, station, NSat, NCell and carries the constellation's pinned epoch field; len(sats) == NSat, "
     "len(cells) == NCell; entry i == {base: getattr(msg, base_i)} over exactly the indexed bases the independent interpreter produced "
-    "for that MSM level. 4076_201 with 1-4 layers and degree/order up to 16 (order <= degree; up to 153 cosine coefficients, i.e. "
+    "for that MSM level. 4076_201 with 1-4 layers and every combination of the degree and order fields (the order above the degree too; up to 153 cosine coefficients, i.e. "
     "three-digit indices): parse_4076_201 must return per layer the height and exactly the interpreter's cosine / sine values in order. "
     "Every other identity, every unknown number and EVERY number in 1070..1229 (reserved ones included): both helpers return None "
     "and raise nothing. Non-trivial: NSat >= 2 and NCell >= 2, or > 99 coefficients in a layer, or a reserved-MSM number."
@@ -95,6 +95,25 @@ def _o_msm(case):
             for i, ent in enumerate(cells_x, 1):
                 if ent.get("CELLSIG") != getattr(mm, f"CELLSIG_{i:02d}") or ent.get("CELLPRN") != getattr(mm, f"CELLPRN_{i:02d}"):
                     raise Fail("msm-result-mixes-label-options", f"{ident} labelmsm={lmx}: cell {i} CELLSIG {ent.get('CELLSIG')!r} but the message has {getattr(mm, f'CELLSIG_{i:02d}')!r}")
+    if not case.get("_second"):
+        # what the caller does with a result (rows edited in place, keys added or dropped) is the caller's business: the
+        # next conversion of the same message must again equal the message
+        import copy
+
+        snap = copy.deepcopy(res)
+        meta["station"] = "edited"
+        meta.pop("epoch", None)
+        for arr in (sats, cells):
+            for ent in arr:
+                for k in list(ent)[:2]:
+                    ent[k] = "edited"
+                if len(ent) > 2:
+                    ent.pop(list(ent)[-1])
+                ent["added"] = 1
+            arr.append({"added": 1})
+        again = parse_msm(m)
+        if again != snap:
+            raise Fail("msm-result-shared-with-caller", f"{case['ident']}: after the caller edited an earlier result in place, parse_msm of the same message no longer equals its first result")
     cls = [cons, f"msm{pins.msm_level(ident)}"]
     if nsat == 0:
         cls.append("nsat0")
@@ -156,6 +175,8 @@ def _o_vtec(case):
     if parse_msm(m) is not None:
         raise Fail("msm-helper-on-vtec", "parse_msm returned a value for 4076_201")
     cls = [f"layers{nl}"]
+    if any(w.vals[f"IDF038_{l + 1:02d}"] > w.vals[f"IDF037_{l + 1:02d}"] for l in range(nl)):
+        cls.append("order>degree")
     if maxc > 99:
         cls.append("coefficients>99")
     if maxc > 9:
@@ -168,7 +189,7 @@ def s_vtec(tier):
 
 
 def _s_vtec(tier):
-    return st.one_of(gen.messages("4076_201", "mixed"), gen.messages("4076_201", "small"), gen.messages("4076_201", "max"))
+    return st.one_of(gen.messages("4076_201", "mixed"), gen.messages("4076_201", "small"), gen.messages("4076_201", "max"), gen.messages("4076_201", "anyorder"))
 
 
 def o_none(case):
